@@ -12,7 +12,7 @@ from fiddle._src import daglish
 from harness import common, l2
 from harness.common import Failure, Result, Stream
 
-COQ_TARGETS = ["theories/C02Check.vo", "theories/Anchors.vo"]
+COQ_TARGETS = ["theories/C02Check.vo", "theories/AnchorsBuild.vo"]
 TRUSTED_BASE = ["Python object identity is stable while an object is referenced (ids are never "
                 "recycled in the model); exercised by the temporaries stream"]
 ASSUMPTIONS = ["callables are uninterpreted: calling one allocates a fresh object recording what it received"]
